@@ -159,10 +159,10 @@ P["C11"] = dict(
           "model's integers are mathematical: a wrapped width or index would otherwise be invisible); fmtsort's interface-key "
           "comparison looks inside only two non-nil values."),
     ref="DESIGN 4 (C11)",
-    note=TRUST + "fmtFloat (strconv-based) is an assumed contract; newPrinter is nosweep (pool type assertion); integer/unicode/char formatting IS swept, using the digit-count spec function nd whose defining equations and bounds are axioms; "
+    note=TRUST + "fmtFloat is swept too (its digits come from strconv.AppendFloat, assumed: appended in place or into a new array, a sign is followed by a character); newPrinter is nosweep (pool type assertion); integer/unicode/char formatting IS swept, using the digit-count spec function nd whose defining equations and bounds are axioms; "
          "stdlib-derived buffer arithmetic), reflect kind preconditions are assumed where printValue dispatches on Kind.",
     decided=["no run-time panic at any swept site; user panics contained; output before/after intact (buffer invariant on unwinding)"],
-    undecided=["fmtFloat (strconv; assumed contract) and newPrinter's pool type assertion (nosweep)"])
+    undecided=["newPrinter's pool type assertion (nosweep); termination"])
 
 P["C12"] = dict(
     level="proof",
